@@ -440,7 +440,8 @@ func c11Rollup(c *core.Ctx) {
 		okGuard = okGuard && len(newE) > 0 && core.ReachableWithout(core.Entry(fn), newE, func(i ssa.Instruction) bool { return i == ssa.Instruction(up) }) == nil &&
 			sx.Of(isNew.Call.Args[1]).String() == "tx" && sx.Of(isNew.Call.Args[2]).String() == "event"
 	} else {
-		okGuard = false
+		// the comparison was folded into processVerifyBatches (directly, or through a helper that [INLINE] expanded)
+		okGuard = okGuard && c11ChangedInPlace(fn, sx, up)
 	}
 	c.Decide(okGuard, rule, "l1infotreesync.(*processor).processVerifyBatches#only-nonzero-changed", up.Pos(), "the tree is updated only for a non-zero exit root that differs from the stored leaf")
 	// the root recorded is the one returned by the update; row inserted on the tx
@@ -454,6 +455,16 @@ func c11Rollup(c *core.Ctx) {
 	tbl, _ := core.ConstString(ins.Call.Args[1])
 	c.Decide(okRow && tbl == "verify_batches" && sx.Of(ins.Call.Args[0]).String() == "tx", rule, "l1infotreesync.(*processor).processVerifyBatches#row-root", ins.Pos(), "the row stores the root returned by UpsertLeaf and is inserted on the tx")
 	// isNewValueForRollupExitTree compares the stored leaf of the same rollup under the last root
+	if isNew == nil {
+		okRead := false
+		core.Instrs(fn, func(i ssa.Instruction) {
+			if call, ok := i.(*ssa.Call); ok && core.CallName(call) == "(*tree.Tree).GetLeaf" {
+				okRead = sx.Of(call).String() == "(*tree.Tree).GetLeaf(p.rollupExitTree.Tree, tx, (event.RollupID - const(1)), (*tree.Tree).GetLastRoot(p.rollupExitTree.Tree, tx)#0.Hash)"
+			}
+		})
+		c.Decide(okRead, rule, "l1infotreesync.(*processor).processVerifyBatches#compare", fn.Pos(), "the stored value compared is leaf(RollupID-1) under the last root")
+		return
+	}
 	nv := c.MustFn(rule, "l1infotreesync", "processor", "isNewValueForRollupExitTree")
 	if nv != nil {
 		okCmp := false
@@ -465,6 +476,99 @@ func c11Rollup(c *core.Ctx) {
 		}
 		c.Decide(okCmp, rule, "l1infotreesync.(*processor).isNewValueForRollupExitTree#compare", nv.Pos(), "new ⇔ leaf(RollupID-1) under the last root != ExitRoot")
 	}
+}
+
+// c11ChangedInPlace: processVerifyBatches itself reads the stored leaf — GetLeaf(RollupID-1) under the hash of
+// GetLastRoot — and UpsertLeaf is reachable only (a) past "GetLastRoot: not found", (b) past "GetLeaf: not found", or
+// (c) past a comparison of that stored leaf with event.ExitRoot that came out "different" (the operands of the
+// comparison are resolved along the path, so a leaf that travelled through result temporaries / Phis is recognised).
+func c11ChangedInPlace(fn *ssa.Function, sx *core.Symx, up *ssa.Call) bool {
+	var getLeaf, lastRoot *ssa.Call
+	n := 0
+	core.Instrs(fn, func(i ssa.Instruction) {
+		call, ok := i.(*ssa.Call)
+		if !ok {
+			return
+		}
+		switch core.CallName(call) {
+		case "(*tree.Tree).GetLeaf":
+			getLeaf = call
+			n++
+		case "(*tree.Tree).GetLastRoot":
+			lastRoot = call
+		}
+	})
+	if getLeaf == nil || lastRoot == nil || n != 1 {
+		return false
+	}
+	if sx.Of(getLeaf).String() != "(*tree.Tree).GetLeaf(p.rollupExitTree.Tree, tx, (event.RollupID - const(1)), (*tree.Tree).GetLastRoot(p.rollupExitTree.Tree, tx)#0.Hash)" {
+		return false
+	}
+	isUp := func(i ssa.Instruction) bool { return i == ssa.Instruction(up) }
+	notFound := func(call *ssa.Call) []core.IfEdge {
+		errV := core.ExtractOf(call, 1)
+		return core.IfEdgesWhere(fn, func(v ssa.Value) bool {
+			cc, ok := v.(*ssa.Call)
+			if !ok || core.CallName(cc) != "errors.Is" || len(cc.Call.Args) != 2 {
+				return false
+			}
+			return sameLeafValue(cc.Call.Args[0], errV) && strings.HasSuffix(sx.Of(cc.Call.Args[1]).String(), "db.ErrNotFound")
+		}, true)
+	}
+	nfRoot, nfLeaf := notFound(lastRoot), notFound(getLeaf)
+	if len(nfRoot) == 0 || len(nfLeaf) == 0 {
+		return false
+	}
+	// (a) without the stored leaf having been read, only the empty tree leads to the update
+	w := &core.Walk{Target: isUp, Stop: func(i ssa.Instruction) bool { return i == ssa.Instruction(getLeaf) }, EdgeOK: core.Forbid(nfRoot)}
+	if w.From(core.Entry(fn), nil) != nil {
+		return false
+	}
+	// (b)/(c) after the read
+	leafV := core.ExtractOf(getLeaf, 0)
+	differs := func(path []int) bool {
+		for k := 0; k+1 < len(path); k++ {
+			b := fn.Blocks[path[k]]
+			iff, ok := b.Instrs[len(b.Instrs)-1].(*ssa.If)
+			if !ok || b.Succs[0] == b.Succs[1] {
+				continue
+			}
+			bo, ok := iff.Cond.(*ssa.BinOp)
+			if !ok || (bo.Op != token.EQL && bo.Op != token.NEQ) {
+				continue
+			}
+			x, y := core.ResolveOnPath(bo.X, path[:k+1]), core.ResolveOnPath(bo.Y, path[:k+1])
+			if !(x == leafV && sx.Of(y).String() == "event.ExitRoot") && !(y == leafV && sx.Of(x).String() == "event.ExitRoot") {
+				continue
+			}
+			tookTrue := b.Succs[0].Index == path[k+1]
+			if tookTrue == (bo.Op == token.NEQ) {
+				return true
+			}
+		}
+		return false
+	}
+	w2 := &core.Walk{EdgeOK: core.Forbid(nfLeaf), TargetPath: func(i ssa.Instruction, path []int) bool { return isUp(i) && !differs(path) }}
+	return w2.From(core.After(getLeaf), nil) == nil
+}
+
+// sameLeafValue: v is x, possibly after travelling through Phis all of whose leaves are x or a nil constant.
+func sameLeafValue(v, x ssa.Value) bool {
+	if v == x {
+		return true
+	}
+	any := false
+	for _, lf := range phiLeaves(v) {
+		if lf.val == x {
+			any = true
+			continue
+		}
+		if k, ok := lf.val.(*ssa.Const); ok && k.Value == nil {
+			continue
+		}
+		return false
+	}
+	return any
 }
 
 func c11Lookup(c *core.Ctx) {
